@@ -1076,6 +1076,9 @@ def _rand_scalar(rng, rule, tc, which):
     else:
         base = [1.0, 1.0, -1.0, 0.0, 2, 2.5, rng.uniform(-2, 2)]
     if rule == "same" and tc == "z" and rng.random() < 0.5:
+        if rng.random() < 0.3:
+            # complex scalars whose real part is one of the special values 0 / 1 (quick-return tests must look at both parts)
+            return complex(rng.choice([0.0, 1.0]), rng.choice([1.0, -0.5, rng.uniform(-2, 2)]))
         return complex(rng.uniform(-2, 2), rng.uniform(-2, 2))
     return rng.choice(base)
 
